@@ -899,6 +899,21 @@ func (r *rpRun) loadCancelled(b Behaviour, idx int, want []int) {
 		return
 	}
 	r.res.note("%s: Load given up after %d of the block reads: log %v", b.ID, passed, r.logIDs())
+	// whatever the load that was given up did merge, the view shows it (the view is the replay of the log at all times)
+	{
+		all := ref.S.(orbitdb.KeyValueStore).All()
+		r.res.Comparisons++
+		for _, id := range r.logIDs() {
+			key := fmt.Sprintf("k%d", id)
+			if id > 100 {
+				key = fmt.Sprintf("c%d", id-100)
+			}
+			if _, ok := all[key]; !ok {
+				r.violate("view-stale", fmt.Sprintf("after a Load that was given up after %d block reads the log holds entry %d and the view does not show its key %s", passed, id, key), r.logIDs(), len(all))
+				break
+			}
+		}
+	}
 	viaSync := idx%2 == 1
 	if viaSync {
 		// the later request is a sync of the same head (announced again by a peer that holds the log): exactly as if the
